@@ -440,15 +440,17 @@ impl Serialize for dyn Rule {
         let properties = self.serialize_to_properties();
         let property_count = properties.len();
         let rule_name = self.get_name();
+        let metadata = self.metadata();
 
-        if property_count == 0 {
+        if property_count == 0
+            && metadata.apply_to_filters.is_empty()
+            && metadata.skip_filters.is_empty()
+        {
             serializer.serialize_str(rule_name)
         } else {
             let mut map = serializer.serialize_map(Some(property_count + 1))?;
 
             map.serialize_entry("rule", rule_name)?;
-
-            let metadata = self.metadata();
 
             if !metadata.apply_to_filters.is_empty() {
                 let filters = metadata
